@@ -115,7 +115,7 @@ Proof.
   assert (HN : 1 <= N < 65536) by (subst N; destruct ms; [congruence|cbn [length] in *; unfold Path.len in *; lia]).
   change (le_enc 2 N) with [N mod 256; (N / 256) mod 256]. cbn [app]. unfold parse_multi. rewrite u16_enc by lia.
   replace (N =? 0) with false by lia.
-  assert (HL : Z.to_nat N = length (offs_list (2 + N * 2) ms)) by (rewrite offs_list_length; unfold N; lia). rewrite HL.
+  assert (HL : Z.to_nat N = length (offs_list (2 + N * 2) ms)) by (rewrite offs_list_length; unfold N; apply Nat2Z.id). rewrite HL.
   rewrite rd_offsets_built by (apply offs_list_bound; lia).
   destruct ms as [|m r]; [congruence|]. cbn [offs_list].
   replace (2 + N * 2 =? 2 + 2 * N) with true by lia. cbn [negb].
